@@ -161,7 +161,7 @@ def r11_5(run, model):
                 bad += 1
                 run.ob("R11.5", f"{fn.name}|no quote trimming", False, site(LOWER, c["sp"]), f"`{a[-60:]}` removes every leading/trailing quote")
     run.ob("R11.5", "lower.rs|no trim of quote characters", bad == 0, site(LOWER, None), f"{ctrl} trim_* calls in lower.rs (positive control), {bad} on quote characters")
-    run.floor("positive control: trim_* calls recognised in lower.rs", ctrl, 1)
+    run.floor("positive control: strip_prefix/strip_suffix/trim_* calls recognised in lower.rs", ctrl + sum(1 for fn in model.fns(LOWER) if fn.body is not None for _ in S.calls(fn.body, "strip_prefix", "strip_suffix")), 2)
 
 
 FORM_LEDGER = {}  # (function, CST form) -> reason why the arm may return a lowered child unchanged
@@ -292,7 +292,59 @@ def r11_7(run, model):
     run.floor("arms of apply_trailing_args that consume the arguments", n, 5)
 
 
+def r11_8(run, model):
+    run.rule("R11.8", "a string literal reaches Go with every character that needs escaping escaped: in escape_go_string any shortcut that "
+                      "returns the text unescaped tests for all characters the escaping loop rewrites (a fast path that forgets `\\` turns "
+                      "the two source characters backslash-t into a tab)")
+    GOPP = "crates/compiler/src/pprint/go_pprint.rs"
+    f = model.fn("escape_go_string", GOPP)
+    esc = set()
+    for m in S.find(f.body, "Match"):
+        for arm in m["arms"]:
+            for n in S.walk(arm["pat"]):
+                if n["k"] in ("PLit", "Lit") and n.get("lit") in ("Char", None) and isinstance(n.get("value"), str) and len(n["value"]) <= 2:
+                    esc.add(n["value"])
+            pt = S.norm_ws(run.facts.text(GOPP, arm["pat"]["sp"]))
+            for mm in re.finditer(r"'(\\.|[^'\\])'", pt):
+                esc.add(mm.group(1))
+    run.floor("characters escaped for Go", len(esc), 4)
+    shortcuts = []
+    for r in S.walk(f.body):
+        if r["k"] == "If" and any(True for _ in S.find(r["then"], "Return")):
+            ct = S.norm_ws(run.facts.text(GOPP, r["cond"]["sp"]))
+            tested = set(re.findall(r"'(\\.|[^'\\])'", ct))
+            shortcuts.append((r, tested, ct))
+    for r, tested, ct in shortcuts:
+        missing = sorted(esc - tested)
+        run.ob("R11.8", "escape_go_string|shortcut tests every escaped character", not missing, site(GOPP, r["sp"]),
+               f"early return under `{ct[:60]}` tests {sorted(tested)}; the loop escapes {sorted(esc)}; not tested: {missing or 'none'}",
+               witness="\"col1\\tcol2\" (backslash, t) is emitted with a single backslash: Go prints a tab")
+    run.ob("R11.8", "escape_go_string|escapes quote, backslash and control characters", {'"', "\\\\", "\\n"} <= esc or {'"', "\\", "\n"} <= esc or len(esc) >= 5, site(GOPP, f.node["sp"]),
+           f"escaped characters: {sorted(esc)}; shortcuts: {len(shortcuts)}")
+
+
+def r11_9(run, model):
+    run.rule("R11.9", "a multi-line string keeps what is written after the `\\\\` marker: the lowering strips only the indentation *before* the "
+                      "marker (trim_start*), never the end of the line")
+    f = model.fn("lower_expr_with_args", LOWER)
+    found = False
+    for m in S.find(f.body, "Match"):
+        for arm in m["arms"]:
+            if "MultilineStrExpr" not in S.norm_ws(run.facts.text(LOWER, arm["pat"]["sp"])):
+                continue
+            found = True
+            trims = sorted({c["method"] for c in S.walk(arm["body"]) if c["k"] == "MethodCall" and c["method"].startswith("trim")})
+            bad = [t for t in trims if not t.startswith("trim_start")]
+            run.ob("R11.9", "MultilineStrExpr|only leading indentation is stripped", not bad, site(LOWER, arm["sp"]),
+                   f"trim calls on the line: {trims or 'none'}" + (f"; {bad} also remove the end of the line" if bad else ""),
+                   witness="\\\\Name:<space><space> loses its trailing blanks: the string denotes \"Name:\" instead of \"Name:  \"")
+    if not found:
+        raise AnalysisIncomplete("MultilineStrExpr arm not found")
+
+
 def run(run, model):
+    run.try_rule(r11_8, model)
+    run.try_rule(r11_9, model)
     run.try_rule(r11_6, model)
     run.try_rule(r11_7, model)
     run.try_rule(r11_1, model)
